@@ -336,7 +336,9 @@ func newestAllowed(offered []bw.RegVer, allowed versions.Set) (string, bool) {
 		if err != nil || !allowed.Has(v) {
 			continue
 		}
-		if best < 0 || v.GreaterThan(bestV) {
+		// among versions of equal precedence (they differ in build metadata only) the one that
+		// prints last: any rule will do as long as it does not look at the order of the listing
+		if best < 0 || v.GreaterThan(bestV) || (!bestV.GreaterThan(v) && o.V > offered[best].V) {
 			best, bestV = i, v
 		}
 	}
